@@ -79,4 +79,14 @@ def gen_custom(rng):
         col = tuple(rng.randint(0, 2) for _ in range(m))
         if any(col):
             pool.add(col)
+    r = rng.random()
+    if r < 0.45:
+        # a user-enumerated column set: pool columns handed over as initial columns in arbitrary order, possibly with the empty
+        # pattern (covers nothing; legal, useless) somewhere in the list
+        extra = [list(c) for c in pool if rng.random() < 0.6 and list(c) not in initial]
+        initial = initial + extra
+        rng.shuffle(initial)
+        if rng.random() < 0.7:
+            initial.insert(rng.randint(0, len(initial) - 1), [0] * m)
+            pool.add(tuple([0] * m))
     return {"kind": "custom", "demands": demands, "initial": initial, "pool": sorted(pool)}
